@@ -379,13 +379,21 @@ def noteView (t : Str) : Option NoteView :=
     | none => none
     | some (a, v, rest) => some ⟨canonAtt fs, a, rest, v⟩
 
-/-- `a ≈ b` with base updated to `c`: both parse, same files / sessions / line sets, same
-    metadata apart from the base, and `b`'s base is `c`. -/
-def noteEquiv (a b c : Str) : Bool :=
+/-- same files / sessions / line sets and same metadata apart from the base (both parse) -/
+def sameUpToBase (a b : Str) : Bool :=
   match noteView a, noteView b with
   | some va, some vb =>
-    va.att == vb.att && va.metaPre == vb.metaPre && va.metaPost == vb.metaPost && vb.base == c
+    va.att == vb.att && va.metaPre == vb.metaPre && va.metaPost == vb.metaPost
   | _, _ => false
+
+def baseIs (t c : Str) : Bool :=
+  match noteView t with
+  | some v => v.base == c
+  | none => false
+
+/-- `a ≈ b` with base updated to `c`: both parse, same files / sessions / line sets, same
+    metadata apart from the base, and `b`'s base is `c`. -/
+def noteEquiv (a b c : Str) : Bool := sameUpToBase a b && baseIs b c
 
 /-! ## 6. per-commit notes (what the shortcut copies) vs cumulative notes (what the slow path
       writes): ghost-level reference model of the line sets, used to decide O14 -/
@@ -429,14 +437,36 @@ def slowLines (head tk : GTree) (changed : List Str) : List (Str × Str × Nat) 
   cumulativeLines (tk.filter (fun pf => changed.contains pf.1)) ++
     cumulativeLines (head.filter (fun pf => !changed.contains pf.1))
 
-/-- `git-ai blame` of line `i` of `path` in tree `t`: git blame names the commit that
-    introduced the line and the line's number there; the session is looked up in THAT commit's
-    note.  `noteOf c` is the note's triple list, `numberAt c path l` the line's number in the
-    introducing commit. -/
-def blameLine (noteOf : Nat → List (Str × Str × Nat)) (numberAt : Nat → Str → Nat → Nat)
-    (path : Str) (i : Nat) (l : GLine) : Option Str :=
-  match (noteOf l.born).find? (fun t => t.1 = path && t.2.2 = numberAt l.born path i) with
+/-- the session a note (given as triples) names for line `j` of `path` (first match) -/
+def lookupLine (note : List (Str × Str × Nat)) (path : Str) (j : Nat) : Option Str :=
+  match note.find? (fun t => t.1 = path && t.2.2 = j) with
   | some t => some t.2.1
   | none => none
+
+/-- the line numbered `j` of a file whose first line has number `i` -/
+def nthFrom : Nat → Nat → List GLine → Option GLine
+  | _, _, [] => none
+  | i, j, l :: ls => if i = j then some l else nthFrom (i + 1) j ls
+
+def lineOf (t : GTree) (path : Str) (j : Nat) : Option GLine :=
+  match lookup path t with
+  | some f => nthFrom 1 j f
+  | none => none
+
+/-- `git-ai blame` of line `j` of `path` at the k-th rewritten commit (tree `tk`): git blame
+    names the commit that introduced the line; for a line introduced by commit `k` itself the
+    session is looked up in commit `k`'s note under the line's own number. (Lines introduced
+    by other commits consult those commits' notes, which is the same statement at their
+    index.) -/
+def blameOwn (note : List (Str × Str × Nat)) (tk : GTree) (k : Nat) (path : Str) (j : Nat) :
+    Option (Option Str) :=
+  match lineOf tk path j with
+  | some l => if l.born = k then some (lookupLine note path j) else none
+  | none => none
+
+/-- a note (attestation section) listing exactly the given triples, one entry each -/
+def attOfTriples : List (Str × Str × Nat) → List FileAtt
+  | [] => []
+  | (p, h, n) :: r => ⟨p, [⟨h, [.single n]⟩]⟩ :: attOfTriples r
 
 end GitAi.Remap
